@@ -14,13 +14,17 @@ structure CbEntry where
   key  : PKey
 deriving DecidableEq, Repr
 
-/-- full state of one chain -/
-structure State where
-  core      : Core
+/-- application state of one chain: token modules and the transfer modules' class traces -/
+structure Apps where
   nft       : NftMod
   nftTraces : Str → Option Str      -- trace hash ↦ full class path
   mt        : MtMod
   mtTraces  : Str → Option Str
+
+/-- full state of one chain -/
+structure State where
+  core      : Core
+  apps      : Apps
   cbLog     : List CbEntry          -- ghost
 
 def nftPort : String := "NFT"
@@ -50,53 +54,65 @@ def ibcClass (full : Str) : Str :=
 /-! ### NFT -/
 
 /-- `getIBCClassFromClassPath`: records the trace if new, returns the voucher class -/
-def nftVoucherClass (s : State) (path : Str) : State × Str :=
+def nftVoucherClass (s : Apps) (path : Str) : Apps × Str :=
   let t := ClassPath.parseTrace path
   let h := Hc (ClassPath.fullPath t)
   let s := if (s.nftTraces h).isSome then s else { s with nftTraces := upd s.nftTraces h (some (ClassPath.fullPath t)) }
   (s, ibcClass Hc path)
 
-def liftNft (s : State) (r : NftMod × Res) : State × Res := ({ s with nft := r.1 }, r.2)
+def liftNft (s : Apps) (r : NftMod × Res) : Apps × Res := ({ s with nft := r.1 }, r.2)
 def liftCore (s : State) (r : Core × Res) : State × Res := ({ s with core := r.1 }, r.2)
+def liftApps (s : State) (r : Apps × Res) : State × Res := ({ s with apps := r.1 }, r.2)
 
-/-- `Keeper.SendNftTransfer` -/
-def sendNftTransfer (s : State) (cls id : Str) (sender receiver : Addr)
-    (dst relay : Chain) (destContract : String) : State × Res :=
-  match s.nft.denom cls with
-  | none => (s, .err (.app "NFT/2"))
+/-- checks of `SendNftTransfer` before the first write: the full class path and the direction -/
+def nftSendPre (s : State) (cls id : Str) (dst : Chain) : Except Err (Str × Bool) :=
+  match s.apps.nft.denom cls with
+  | none => .error (.app "NFT/2")
   | some _ =>
-    match s.nft.owner (cls, id) with
-    | none => (s, .err (.app "NFT/3"))
+    match s.apps.nft.owner (cls, id) with
+    | none => .error (.app "NFT/3")
     | some _ =>
-      if s.core.name == dst then (s, .err (.app "NFT/4"))
+      if s.core.name == dst then .error (.app "NFT/4")
       else
         let full? : Except Err Str :=
           if hasPrefix voucherPfx cls then
-            match s.nftTraces (cls.drop voucherPfx.length) with
+            match s.apps.nftTraces (cls.drop voucherPfx.length) with
             | none => .error (.app "NFT/5")
             | some p => .ok p
           else .ok cls
         match full? with
-        | .error e => (s, .err e)
+        | .error e => .error e
         | .ok full =>
           match ClassPath.determineAway nftPfx full dst.toList with
-          | none => (s, .err .panic)
-          | some away =>
-            let seq := s.core.ps.nextSend ⟨s.core.name, dst⟩
-            let (s1, r) :=
-              if away then liftNft s (s.nft.transferOwner cls id sender nftModAddr)
-              else liftNft s (s.nft.burn cls id sender)
-            match r with
-            | .err e => (s1, .err e)
-            | .ok =>
-              let d : NftData := { cls := full, id := id, uri := s.nft.uri (cls, id), sender := sender,
-                                   receiver := receiver, away := away, destContract := destContract }
-              let p : Packet := { seq := seq, src := s.core.name, dst := dst, relay := relay,
-                                  port := nftPort, data := .nft d }
-              liftCore s1 (s1.core.sendPacket H p)
+          | none => .error .panic
+          | some away => .ok (full, away)
+
+/-- lock (away) or burn (back) -/
+def nftSendToken (a : Apps) (cls id : Str) (sender : Addr) (away : Bool) : Apps × Res :=
+  if away then liftNft a (a.nft.transferOwner cls id sender nftModAddr)
+  else liftNft a (a.nft.burn cls id sender)
+
+def nftPacket (s : State) (cls id full : Str) (away : Bool) (sender receiver : Addr)
+    (dst relay : Chain) (destContract : String) : Packet :=
+  { seq := s.core.ps.nextSend ⟨s.core.name, dst⟩, src := s.core.name, dst := dst, relay := relay,
+    port := nftPort,
+    data := .nft { cls := full, id := id, uri := s.apps.nft.uri (cls, id), sender := sender,
+                   receiver := receiver, away := away, destContract := destContract } }
+
+/-- `Keeper.SendNftTransfer` -/
+def sendNftTransfer (s : State) (cls id : Str) (sender receiver : Addr)
+    (dst relay : Chain) (destContract : String) : State × Res :=
+  match nftSendPre s cls id dst with
+  | .error e => (s, .err e)
+  | .ok (full, away) =>
+    match nftSendToken s.apps cls id sender away with
+    | (a, .err e) => ({ s with apps := a }, .err e)
+    | (a, .ok) =>
+      let r := s.core.sendPacket H (nftPacket s cls id full away sender receiver dst relay destContract)
+      ({ s with apps := a, core := r.1 }, r.2)
 
 /-- `Keeper.OnRecvPacket` (NFT); the error is what becomes the error acknowledgement -/
-def nftOnRecv (s : State) (p : Packet) (d : NftData) : State × Res :=
+def nftOnRecv (s : Apps) (p : Packet) (d : NftData) : Apps × Res :=
   if addrBlank d.sender then (s, .err .invalidAddress)
   else if addrBlank d.receiver then (s, .err .invalidAddress)
   else if !addrValid d.receiver then (s, .err .invalidAddress)
@@ -123,7 +139,7 @@ def nftOnRecv (s : State) (p : Packet) (d : NftData) : State × Res :=
         liftNft s (s.nft.transferOwner vc d.id nftModAddr d.receiver)
 
 /-- `refundPacketToken` (NFT) -/
-def nftRefund (s : State) (d : NftData) : State × Res :=
+def nftRefund (s : Apps) (d : NftData) : Apps × Res :=
   if !addrValid d.sender then (s, .err .invalidAddress)
   else
     let vc := ibcClass Hc d.cls
@@ -135,51 +151,59 @@ def nftRefund (s : State) (d : NftData) : State × Res :=
 
 /-! ### MT -/
 
-def mtVoucherClass (s : State) (path : Str) : State × Str :=
+def mtVoucherClass (s : Apps) (path : Str) : Apps × Str :=
   let t := ClassPath.parseTrace path
   let h := Hc (ClassPath.fullPath t)
   let s := if (s.mtTraces h).isSome then s else { s with mtTraces := upd s.mtTraces h (some (ClassPath.fullPath t)) }
   (s, ibcClass Hc path)
 
-def liftMt (s : State) (r : MtMod × Res) : State × Res := ({ s with mt := r.1 }, r.2)
+def liftMt (s : Apps) (r : MtMod × Res) : Apps × Res := ({ s with mt := r.1 }, r.2)
 
-/-- `Keeper.SendMtTransfer` -/
-def sendMtTransfer (s : State) (cls id : Str) (sender receiver : Addr)
-    (dst relay : Chain) (destContract : String) (amount : Nat) (mtData : String) : State × Res :=
-  match s.mt.denom cls with
-  | none => (s, .err (.app "MT/2"))
+def mtSendPre (s : State) (cls id : Str) (dst : Chain) : Except Err (Str × Bool) :=
+  match s.apps.mt.denom cls with
+  | none => .error (.app "MT/2")
   | some _ =>
-    if !s.mt.exists_ (cls, id) then (s, .err (.app "MT/3"))
-    else if s.core.name == dst then (s, .err (.app "MT/4"))
+    if !s.apps.mt.exists_ (cls, id) then .error (.app "MT/3")
+    else if s.core.name == dst then .error (.app "MT/4")
     else
       let full? : Except Err Str :=
         if hasPrefix voucherPfx cls then
-          match s.mtTraces (cls.drop voucherPfx.length) with
+          match s.apps.mtTraces (cls.drop voucherPfx.length) with
           | none => .error (.app "MT/5")
           | some p => .ok p
         else .ok cls
       match full? with
-      | .error e => (s, .err e)
+      | .error e => .error e
       | .ok full =>
         match ClassPath.determineAway mtPfx full dst.toList with
-        | none => (s, .err .panic)
-        | some away =>
-          let seq := s.core.ps.nextSend ⟨s.core.name, dst⟩
-          let (s1, r) :=
-            if away then liftMt s (s.mt.transferOwner cls id amount sender mtModAddr)
-            else liftMt s (s.mt.burn cls id amount sender)
-          match r with
-          | .err e => (s1, .err e)
-          | .ok =>
-            let d : MtData := { cls := full, id := id, data := mtData, sender := sender,
-                                receiver := receiver, away := away, destContract := destContract,
-                                amount := amount }
-            let p : Packet := { seq := seq, src := s.core.name, dst := dst, relay := relay,
-                                port := mtPort, data := .mt d }
-            liftCore s1 (s1.core.sendPacket H p)
+        | none => .error .panic
+        | some away => .ok (full, away)
+
+def mtSendToken (a : Apps) (cls id : Str) (amount : Nat) (sender : Addr) (away : Bool) : Apps × Res :=
+  if away then liftMt a (a.mt.transferOwner cls id amount sender mtModAddr)
+  else liftMt a (a.mt.burn cls id amount sender)
+
+def mtPacket (s : State) (id full : Str) (away : Bool) (sender receiver : Addr)
+    (dst relay : Chain) (destContract : String) (amount : Nat) (mtData : String) : Packet :=
+  { seq := s.core.ps.nextSend ⟨s.core.name, dst⟩, src := s.core.name, dst := dst, relay := relay,
+    port := mtPort,
+    data := .mt { cls := full, id := id, data := mtData, sender := sender, receiver := receiver,
+                  away := away, destContract := destContract, amount := amount } }
+
+/-- `Keeper.SendMtTransfer` -/
+def sendMtTransfer (s : State) (cls id : Str) (sender receiver : Addr)
+    (dst relay : Chain) (destContract : String) (amount : Nat) (mtData : String) : State × Res :=
+  match mtSendPre s cls id dst with
+  | .error e => (s, .err e)
+  | .ok (full, away) =>
+    match mtSendToken s.apps cls id amount sender away with
+    | (a, .err e) => ({ s with apps := a }, .err e)
+    | (a, .ok) =>
+      let r := s.core.sendPacket H (mtPacket s id full away sender receiver dst relay destContract amount mtData)
+      ({ s with apps := a, core := r.1 }, r.2)
 
 /-- `Keeper.OnRecvPacket` (MT) -/
-def mtOnRecv (s : State) (p : Packet) (d : MtData) : State × Res :=
+def mtOnRecv (s : Apps) (p : Packet) (d : MtData) : Apps × Res :=
   if addrBlank d.sender then (s, .err .invalidAddress)
   else if addrBlank d.receiver then (s, .err .invalidAddress)
   else if d.amount == 0 then (s, .err (.app "MT/6"))
@@ -206,7 +230,7 @@ def mtOnRecv (s : State) (p : Packet) (d : MtData) : State × Res :=
         liftMt s (s.mt.transferOwner vc d.id d.amount mtModAddr d.receiver)
 
 /-- `refundPacketToken` (MT) -/
-def mtRefund (s : State) (d : MtData) : State × Res :=
+def mtRefund (s : Apps) (d : MtData) : Apps × Res :=
   if !addrValid d.sender then (s, .err .invalidAddress)
   else
     let vc := ibcClass Hc d.cls
